@@ -7,6 +7,11 @@ pub fn insert_op2(_g: &mut G, id: Id, k: KindTag, script: Script) -> Op {
     match k {
         KindTag::Executor => Op::InsertExecutor { id, script },
         KindTag::Stream => Op::InsertStream { id, script },
+        KindTag::Composite => {
+            let n = _g.rng.range(1, 4);
+            let children = (0..n).map(|_| match _g.rng.below(5) { 0 => ChildSpec::Sock, 1 => ChildSpec::Timer(Deadline::In(_g.rng.range(0, 30) * crate::gen::MS)), _ => ChildSpec::Ping }).collect();
+            Op::InsertComposite { id, children, script }
+        }
         KindTag::Transient => {
             let child = if _g.rng.chance(2, 3) { ChildSpec::Sock } else { ChildSpec::Timer(Deadline::In(_g.rng.range(0, 20) * crate::gen::MS)) };
             Op::InsertTransient { id, child, from_default: _g.rng.chance(1, 5), script }
@@ -43,6 +48,11 @@ pub fn cause_op2(g: &mut G, id: Id, k: KindTag) -> Option<Op> {
             }
         }
         KindTag::Stream => Some(if g.rng.chance(1, 8) { Op::StreamEnd(id) } else { Op::StreamPush(id) }),
+        KindTag::Composite => Some(match g.rng.below(10) {
+            0 | 1 => Op::DropChildPing(id, g.rng.below(4) as u32),
+            2 | 3 => Op::PeerWriteChild(id, g.rng.below(4) as u32, 3),
+            _ => Op::PingChild(id, g.rng.below(4) as u32),
+        }),
         KindTag::Transient => Some(match g.rng.below(10) {
             0 | 1 => Op::TrRemove(id),
             2 | 3 => Op::TrReplace(id, if g.rng.chance(2, 3) { ChildSpec::Sock } else { ChildSpec::Timer(Deadline::In(g.rng.range(0, 20) * crate::gen::MS)) }),
